@@ -128,6 +128,7 @@ class Prop(Check):
         "BaseTypes.C04_number_line_text",
         "BaseTypes.C04_float_text",
         "BaseTypes.C04_line_checked",
+        "BaseTypes.C04_string_text",
         "BaseTypes.C04_scanner_exact",
         "BaseTypes.C04_strInt_kind",
     ]
@@ -411,7 +412,7 @@ class Prop(Check):
         k = case["k"]
         if k == "tokens":
             req = {"op": "tokens", "type": case["type"], "cc": cc_of(uncps(case["text"])), "text": case["text"]}
-            if case.get("items") and case["type"] != "STRING":
+            if case.get("items"):
                 # how the line was composed: Lean decides the hypotheses of C04_line_checked on it (`hyp`),
                 # classifies every literal (`kinds`) and says what the theorem promises (`want`)
                 seps = case.get("seps", [])
